@@ -199,6 +199,9 @@ func (s *Segment) readListPtr(base address, val rawPointer) (List, error) {
 		}
 		sz := hdr.structSize()
 		n := int32(hdr.offset())
+		if n < 0 {
+			return List{}, newError("composite list pointer: negative element count")
+		}
 		// TODO(someday): check that this has the same end address
 		if tsize, ok := sz.totalSize().times(n); !ok {
 			return List{}, newError("composite list pointer: size overflow")
